@@ -435,6 +435,17 @@ func (w *srvWorld) genConn(i int, dialled, late bool) *peerConn {
 		} else if t.Chance(1, 4) {
 			m.Flags |= 0x40
 		}
+		if !cfg.wideHdr && k > 0 && t.Chance(1, 8) {
+			if prev := pc.msgs[len(pc.msgs)-1]; prev.bad == "" {
+				// the peer uses the previous End-to-End id again (a request sent again carries the T
+				// flag; another message may simply collide): each message is still dispatched
+				m.E2E = prev.ref.E2E
+				if isReq {
+					m.Flags |= 0x10
+				}
+				e.Probe("end-to-end-id-used-again")
+			}
+		}
 		size := t.Pick(6, 2, 1)
 		n := []int{0, 300, 1100}[size] + t.Draw(60)
 		if cfg.bigMsgs && t.Chance(1, 6) {
